@@ -111,6 +111,22 @@ class VLoop(asyncio.BaseEventLoop):
                 return steps
             self.fire_due(t)
 
+    def quiesce_until(self, pred, horizon: float, max_steps: int = 2_000_000) -> bool:
+        """Default schedule until pred() holds at a quiescent point, or `horizon`; -> pred()."""
+        steps = 0
+        while True:
+            while self._ready:
+                self.run_batch()
+                steps += 1
+                if steps > max_steps:
+                    raise RuntimeError("quiesce_until: step cap")
+            if pred():
+                return True
+            t = self.next_timer()
+            if t is None or t > horizon:
+                return False
+            self.fire_due(t)
+
     def run_coro(self, coro, horizon: float = 1e9):
         """Run a coroutine to completion on the default schedule; return result / raise."""
         task = self.create_task(coro)
